@@ -3,10 +3,38 @@
 // in-flight fetches disagree afterwards (a leaked slot never returns to zero).
 #include "src/core/Node.cpp"
 #include <cstdio>
+#include <string>
 using namespace ephemeralnet;
 static std::size_t in_flight_of(Node& n, const PeerId& p) { std::size_t c = 0; for (const auto& [k, s] : n.pending_chunk_fetches_) if (s.in_flight && s.peer_id == p) ++c; return c; }
 static std::size_t counted_of(Node& n, const PeerId& p) { const auto it = n.active_peer_requests_.find(peer_id_to_string(p)); return it == n.active_peer_requests_.end() ? 0 : it->second; }
-int main() {
+// scenario backoff: every dispatch to an unreachable peer fails; the delays until the next attempt must be initial, 2*initial, ...
+// capped at the maximum (initial 10 s, maximum 35 s: 10, 20, 35, 35)
+static int backoff() {
+    Config config{}; config.identity_seed = 24u; config.fetch_retry_initial_backoff = std::chrono::seconds(10); config.fetch_retry_max_backoff = std::chrono::seconds(35);
+    config.fetch_retry_attempt_limit = 10; config.fetch_max_parallel_requests = 3;
+    PeerId self{}, peer{}; self[0] = 0xE1; peer[0] = 0xE2;
+    Node node(self, config);
+    protocol::Manifest m{}; m.chunk_id[0] = 0x25; m.threshold = 1; m.total_shares = 1;
+    protocol::KeyShard s{}; s.index = 1; m.shards.push_back(s);
+    m.expires_at = std::chrono::system_clock::now() + std::chrono::hours(1);
+    protocol::AnnouncePayload ap{}; ap.chunk_id = m.chunk_id; ap.peer_id = peer; ap.manifest_uri = protocol::encode_manifest(m);
+    ap.endpoint = ""; ap.ttl = std::chrono::seconds(60); ap.assigned_shards = {1};
+    const auto key = chunk_id_to_string(m.chunk_id);
+    const double want[4] = {10, 20, 35, 35};
+    for (int attempt = 0; attempt < 4; ++attempt) {
+        const auto before = std::chrono::steady_clock::now();
+        if (attempt == 0) node.schedule_assigned_fetch(ap);
+        else { auto it = node.pending_chunk_fetches_.find(key); if (it == node.pending_chunk_fetches_.end()) { std::printf("the pending fetch vanished\n"); return 2; } it->second.next_attempt = before; node.process_pending_fetches(); }
+        const auto it = node.pending_chunk_fetches_.find(key);
+        if (it == node.pending_chunk_fetches_.end()) { std::printf("the pending fetch was dropped after attempt %d (limit 10)\n", attempt + 1); return 2; }
+        const double delay = std::chrono::duration<double>(it->second.next_attempt - before).count();
+        if (delay < want[attempt] - 0.5 || delay > want[attempt] + 1.5) { std::printf("REPRODUCED: the delay after failed attempt %d is %.0f s, not %.0f s (initial back-off 10 s doubling up to the 35 s maximum)\n", attempt + 1, delay, want[attempt]); return 1; }
+    }
+    std::printf("retry delays 10, 20, 35, 35 s as required\n");
+    return 0;
+}
+int main(int argc, char** argv) {
+    if (argc > 1 && std::string(argv[1]) == "backoff") return backoff();
     Config config{}; config.identity_seed = 24u; config.fetch_max_parallel_requests = 2;
     PeerId self{}, peer{}; self[0] = 0xE1; peer[0] = 0xE2;
     Node node(self, config);
@@ -26,6 +54,17 @@ int main() {
     const auto f = in_flight_of(node, peer), c = counted_of(node, peer);
     std::printf("after the re-announce: in-flight fetches of the peer %zu, counted %zu\n", f, c);
     if (f != c) { std::printf("REPRODUCED: the peer's in-flight count (%zu) no longer equals its number of in-flight fetches (%zu): the slot taken by the fetch is never released\n", c, f); return 1; }
+    // the same, but the fetch in flight with `peer` is re-announced by ANOTHER peer: the slot must be given back to `peer`
+    it = node.pending_chunk_fetches_.find(key);
+    if (it == node.pending_chunk_fetches_.end()) { std::printf("the pending fetch vanished\n"); return 2; }
+    if (!it->second.in_flight) { it->second.peer_id = peer; node.note_dispatch_start(it->second); it->second.in_flight = true; }
+    PeerId other{}; other[0] = 0xE3;
+    auto ap2 = ap; ap2.peer_id = other; ap2.endpoint = "";
+    node.schedule_assigned_fetch(ap2);
+    for (const auto& p : {peer, other}) {
+        const auto f2 = in_flight_of(node, p), c2 = counted_of(node, p);
+        if (f2 != c2) { std::printf("REPRODUCED: after another peer re-announced an in-flight fetch, peer %02x has in-flight count %zu but %zu in-flight fetches (the slot was released for the wrong peer)\n", p[0], c2, f2); return 1; }
+    }
     std::printf("in-flight count and in-flight fetches agree\n");
     return 0;
 }
